@@ -80,6 +80,7 @@ type propD struct {
 	conflicts                  []string
 	dflt                       *string
 	emptyIsDefault, disabled   bool
+	noReason                   bool // disabled WITHOUT a reason (Disabled=true, DisabledReason=nil: a struct literal or a rebuilt schema)
 }
 
 func strsSx(l []string) *sx.Node {
@@ -91,7 +92,7 @@ func strsSx(l []string) *sx.Node {
 }
 func (p propD) sx() *sx.Node {
 	reason := none()
-	if p.disabled {
+	if p.disabled && !p.noReason {
 		reason = sx.S("off")
 	}
 	return sx.L(sx.S(p.name), sx.L(sx.A("prop"), p.t, none(), sx.B(p.required), strsSx(p.requiredIf), strsSx(p.requiredIfNot),
